@@ -232,11 +232,16 @@ def popNum : HM Nat := do
 
 def payloadsOf (m : Msg) (encrypted : Bool) : List Payload := if encrypted then m.enc else m.payloads
 
+/-- a pure look-up lifted into the handler monad: the state is not touched -/
+def liftE {α} (x : Except Exc α) : HM α := fun s => (x, s)
+
 /-- `get_payload(type, encrypted)`; `PayloadNotFound` when absent -/
-def getPayload (m : Msg) (pt : Nat) (encrypted : Bool) : HM Payload :=
+def findPayload (m : Msg) (pt : Nat) (encrypted : Bool) : Except Exc Payload :=
   match (payloadsOf m encrypted).find? fun p => p.ptype = pt with
-  | some p => pure p
-  | none => HM.raise excPayloadNotFound
+  | some p => .ok p
+  | none => .error excPayloadNotFound
+
+def getPayload (m : Msg) (pt : Nat) (encrypted : Bool) : HM Payload := liftE (findPayload m pt encrypted)
 
 /-- `get_notifies(type, encrypted)`: (protocol, spi, data) of each -/
 def getNotifies (m : Msg) (nt : Nat) (encrypted : Bool) : List (Nat × Bytes × Bytes) :=
@@ -247,14 +252,32 @@ def getNotifies (m : Msg) (nt : Nat) (encrypted : Bool) : List (Nat × Bytes × 
       | _ => none
     else none
 
-/-- an ill-typed payload (type octet and body disagree) is never produced by the parser -/
-def illTyped {α} : HM α := do markBad; HM.raise excPython
+/-- the content of the first payload of a type (an ill-typed payload — type octet and body disagree — is never produced by
+    the parser; it is treated like any other programming error) -/
+def paySA (m : Msg) (encrypted : Bool) : Except Exc (List Proposal) :=
+  match findPayload m ptSA encrypted with
+  | .error e => .error e
+  | .ok p => match p.body with | .sa ps => .ok ps | _ => .error excPython
 
-def saOf (p : Payload) : HM (List Proposal) := match p.body with | .sa ps => pure ps | _ => illTyped
-def keOf (p : Payload) : HM (Nat × Bytes) := match p.body with | .ke g d => pure (g, d) | _ => illTyped
-def nonceOf (p : Payload) : HM Bytes := match p.body with | .nonce d => pure d | _ => illTyped
-def tsBodyOf (p : Payload) : HM (List TS) := match p.body with | .ts l => pure l | _ => illTyped
-def idOf (p : Payload) : HM (Nat × Bytes) := match p.body with | .ident t d => pure (t, d) | _ => illTyped
+def payKE (m : Msg) (encrypted : Bool) : Except Exc (Nat × Bytes) :=
+  match findPayload m ptKE encrypted with
+  | .error e => .error e
+  | .ok p => match p.body with | .ke g d => .ok (g, d) | _ => .error excPython
+
+def payNonce (m : Msg) (encrypted : Bool) : Except Exc Bytes :=
+  match findPayload m ptNONCE encrypted with
+  | .error e => .error e
+  | .ok p => match p.body with | .nonce d => .ok d | _ => .error excPython
+
+def payTS (m : Msg) (pt : Nat) (encrypted : Bool) : Except Exc (List TS) :=
+  match findPayload m pt encrypted with
+  | .error e => .error e
+  | .ok p => match p.body with | .ts l => .ok l | _ => .error excPython
+
+def payId (m : Msg) (pt : Nat) (encrypted : Bool) : Except Exc (Nat × Bytes) :=
+  match findPayload m pt encrypted with
+  | .error e => .error e
+  | .ok p => match p.body with | .ident t d => .ok (t, d) | _ => .error excPython
 
 /-- a NOTIFY payload whose type satisfies `f` -/
 def isNotifyWith (f : Nat → Bool) (p : Payload) : Bool :=
@@ -379,9 +402,9 @@ def cookieGate (x : XSa) (request : Msg) : HM Unit :=
 /-- `_process_ike_sa_negotiation_request(request, encrypted, old_sk_d)` run on the object in `sl`; returns the
     response payloads (SA, Nr, KEr) -/
 def negotiateIkeRequest (sl : Slot) (request : Msg) (encrypted : Bool) : HM (List Payload) := do
-  let sa ← saOf (← getPayload request ptSA encrypted)
-  let _ ← nonceOf (← getPayload request ptNONCE encrypted)
-  let (keGroup, _) ← keOf (← getPayload request ptKE encrypted)
+  let sa ← liftE (paySA request encrypted)
+  let _ ← liftE (payNonce request encrypted)
+  let (keGroup, _) ← liftE (payKE request encrypted)
   let x ← getSlot sl
   -- cookie first: no negotiation state and no DH work before it is passed
   cookieGate x request
@@ -548,14 +571,14 @@ def childRekeyPrelude (request : Msg) (sa : List Proposal) (tsi tsr : List TS) :
 /-- the nonce part: none in IKE_AUTH (the IKE_SA_INIT nonces are used), else the peer's must be there and ours is drawn -/
 def childNonce (request : Msg) : HM (List Payload) :=
   if request.hdr.exch = 35 then pure [] else do
-    let _ ← nonceOf (← getPayload request ptNONCE true)
+    let _ ← liftE (payNonce request true)
     let n ← popBytes
     pure [mkP ptNONCE (.nonce n)]
 
 /-- "if KE exchange is required": group check, key pair, shared secret -/
 def childKe (request : Msg) (chosen : Proposal) : HM (List Payload) :=
   if hasDh chosen then do
-    let (keGroup, _) ← keOf (← getPayload request ptKE true)
+    let (keGroup, _) ← liftE (payKE request true)
     match dhGroup chosen with
     | none => HM.raise excPython
     | some g =>
@@ -577,9 +600,9 @@ def childCreateResponder (chosen : Proposal) (chosenTsr chosenTsi : TS) (mode : 
 
 /-- the body of the `try` of `_process_create_child_sa_negotiation_req` -/
 def childNegotiationReqBody (request : Msg) : HM (List Payload) := do
-  let sa ← saOf (← getPayload request ptSA true)
-  let tsi ← tsBodyOf (← getPayload request ptTSi true)
-  let tsr ← tsBodyOf (← getPayload request ptTSr true)
+  let sa ← liftE (paySA request true)
+  let tsi ← liftE (payTS request ptTSi true)
+  let tsr ← liftE (payTS request ptTSr true)
   let me ← getMe
   if me.core.st = stREK_IKE_SA_REQ_SENT ∨ me.core.st = stDEL_IKE_SA_REQ_SENT then HM.raise excTemporaryFailure
   let pre ← childRekeyPrelude request sa tsi tsr
@@ -638,7 +661,7 @@ def popAuthVerify : HM Unit := do
 /-- `process_ike_auth_request` -/
 def processIkeAuthRequest (request : Msg) : HM HRes := do
   checkInStates [stINIT_RES_SENT]
-  let (idType, idData) ← idOf (← getPayload request ptIDi true)
+  let (idType, idData) ← liftE (payId request ptIDi true)
   let _ ← getPayload request ptAUTH true
   let me ← getMe
   if idType ≠ me.ext.conf.peerIdType then HM.raise excAuthFailed
@@ -676,7 +699,7 @@ def deleteLoop : List Payload → List Payload → HM (List Payload)
         let acc ← deleteSpis proto spis acc
         deleteLoop rest acc
       else deleteLoop rest acc
-    | _ => illTyped
+    | _ => HM.raise excPython          -- a DELETE payload whose body is not one: never produced by the parser
 
 /-- `process_informational_request` -/
 def processInformationalRequest (request : Msg) : HM HRes := do
@@ -689,7 +712,7 @@ def processInformationalRequest (request : Msg) : HM HRes := do
 /-- `process_create_child_sa_request` -/
 def processCreateChildSaRequest (now : Nat) (request : Msg) : HM HRes := do
   checkInStates liveStates
-  let sa ← saOf (← getPayload request ptSA true)
+  let sa ← liftE (paySA request true)
   match sa with
   | [] => HM.raise excPython
   | p0 :: _ =>
@@ -730,7 +753,7 @@ def handleInvalidKe (data : Bytes) : HM Msg := do
   | none => HM.raise excPython
   | some req =>
     let encrypted := req.hdr.exch > 34
-    let sa ← saOf (← getPayload req ptSA encrypted)
+    let sa ← liftE (paySA req encrypted)
     match sa with
     | [] => HM.raise excPython
     | mine :: _ =>
@@ -745,9 +768,9 @@ def handleInvalidKe (data : Bytes) : HM Msg := do
 
 /-- `process_ike_sa_negotiation_response(response, nonce, encrypted, old_sk_d)` run on the object in `sl` -/
 def negotiateIkeResponse (sl : Slot) (response : Msg) (encrypted rekey : Bool) : HM Unit := do
-  let sa ← saOf (← getPayload response ptSA encrypted)
-  let _ ← nonceOf (← getPayload response ptNONCE encrypted)
-  let _ ← keOf (← getPayload response ptKE encrypted)
+  let sa ← liftE (paySA response encrypted)
+  let _ ← liftE (payNonce response encrypted)
+  let _ ← liftE (payKE response encrypted)
   let x ← getSlot sl
   match sa, x.ext.chosen with
   | p0 :: _, some offer =>
@@ -801,7 +824,7 @@ def processIkeSaInitResponse (response : Msg) : HM HRes := do
     match me.core.request with
     | none => HM.raise excPython
     | some req =>
-      let _ ← nonceOf (← getPayload req ptNONCE false)
+      let _ ← liftE (payNonce req false)
       negotiateIkeResponse .me response false false
       let r ← generateIkeAuthRequest
       pure (.request r)
@@ -815,16 +838,16 @@ inductive ChildRes where
 
 /-- `_process_create_child_sa_negotiation_res(response)` -/
 def childNegotiationResBody (response : Msg) : HM Unit := do
-  let sa ← saOf (← getPayload response ptSA true)
-  let tsi ← tsBodyOf (← getPayload response ptTSi true)
-  let tsr ← tsBodyOf (← getPayload response ptTSr true)
+  let sa ← liftE (paySA response true)
+  let tsi ← liftE (payTS response ptTSi true)
+  let tsr ← liftE (payTS response ptTSr true)
   let transport := ¬ (getNotifies response nUSE_TRANSPORT_MODE true).isEmpty
   let me ← getMe
   if response.hdr.exch ≠ 35 then do
     match me.core.request with
     | none => HM.raise excPython
-    | some req => let _ ← nonceOf (← getPayload req ptNONCE true)
-    let _ ← nonceOf (← getPayload response ptNONCE true)
+    | some req => let _ ← liftE (payNonce req true)
+    let _ ← liftE (payNonce response true)
   match me.ext.creating with
   | none => HM.raise excPython
   | some creating =>
@@ -836,7 +859,7 @@ def childNegotiationResBody (response : Msg) : HM Unit := do
     | chosen :: _ =>
       if ¬ childResponseOk mine chosen then HM.raise excNoProposal
       if hasDh chosen then do
-        let _ ← keOf (← getPayload response ptKE true)
+        let _ ← liftE (payKE response true)
         popOk
       match tsi, tsr with
       | chosenTsi :: _, chosenTsr :: _ =>
@@ -860,7 +883,7 @@ def childNegotiationRes (response : Msg) : HM ChildRes := do
 def processIkeAuthResponse (response : Msg) : HM HRes := do
   checkInStates [stAUTH_REQ_SENT]
   abortOnErrorNotifies response true [nNO_PROPOSAL_CHOSEN, nTS_UNACCEPTABLE]
-  let (idType, idData) ← idOf (← getPayload response ptIDr true)
+  let (idType, idData) ← liftE (payId response ptIDr true)
   let _ ← getPayload response ptAUTH true
   let me ← getMe
   if idType ≠ me.ext.conf.peerIdType then HM.raise excAuthFailed
@@ -899,7 +922,7 @@ def processCreateChildSaResponse (now : Nat) (response : Msg) : HM HRes := do
       else do
         match me.core.request with
         | none => HM.raise excPython
-        | some req => let _ ← nonceOf (← getPayload req ptNONCE true)
+        | some req => let _ ← liftE (payNonce req true)
         negotiateIkeResponse .succ response true true
         handOver false
         let r ← generateDeleteIkeSaRequest
